@@ -429,3 +429,132 @@ def zero_test_edge(f, blk, k, is_subject):
             zero_true, zero_false = zero_false, zero_true
         return (k == 0 and zero_true) or (k == 1 and zero_false)
     return False
+
+
+# ---- stability of container facts -------------------------------------------------------------
+# A fact such as "pos <= S.size()", "i < V.size()", "M contains k" or "J is a number" is established at one point and used at
+# another; it only carries over if S cannot have been changed on any path between the two.
+
+NON_RESIZING = ('operator[]', 'at', 'begin', 'end', 'rbegin', 'rend', 'cbegin', 'cend', 'front', 'back', 'data', 'c_str')
+
+
+def _ref_aliases(f):
+    """local reference variables -> access path of their initialiser"""
+    c = f.__dict__.setdefault('_alias_cache', None)
+    if c is not None:
+        return c
+    out = {}
+    for st in f.stmts:
+        if st and st['k'] == 'DeclStmt':
+            for d in st.get('decls', ()):
+                if d.get('dk') == 'Var' and (d.get('t') or '').rstrip().endswith('&') and not (d.get('t') or '').rstrip().endswith('&&') and d.get('init') is not None:
+                    p = f.path(d['init'])
+                    if p and '?' not in p and '(' not in p:
+                        out[d['n']] = p
+    f.__dict__['_alias_cache'] = out
+    return out
+
+
+def canon_path(f, p, depth=0):
+    """resolve a leading local reference variable to what it is bound to"""
+    if depth > 4 or not p:
+        return p
+    al = _ref_aliases(f)
+    root, sep, rest = p.partition('.')
+    base = root.rstrip('[]')
+    if base in al and base == root:
+        return canon_path(f, al[base] + sep + rest, depth + 1)
+    return p
+
+
+def _is_prefix(p, X):
+    return p == X or X.startswith(p + '.') or X.startswith(p + '[')
+
+
+def mod_points(f, X, content=False):
+    """CFG points of statements in f that may resize (content=True: or otherwise change) the object with access path X.
+    Counted: writes to X or to an object containing it; non-const member calls on X (except element access when only the size
+    matters) or on an object containing it; X or a containing object handed to a call through a non-const pointer/reference;
+    when X is reached through `this`: any non-const member call on this and any call through a std::function / function pointer.
+    Not seen (stated assumption): changes through an unrelated alias obtained elsewhere."""
+    from .locks import classify_access
+    X = canon_path(f, X)
+    key = ('modpts', X, content)
+    cache = f.__dict__.setdefault('_modcache', {})
+    if key in cache:
+        return cache[key]
+    root = X.partition('.')[0].rstrip('[]')
+    local_names = set(p['n'] for p in f.params)
+    for st in f.stmts:
+        if st and st['k'] == 'DeclStmt':
+            local_names.update(d['n'] for d in st.get('decls', ()) if d.get('n'))
+    this_rooted = root not in local_names and '::' not in root
+    out = []
+
+    def add(st):
+        p = f.cfg.point_of(st['i'])
+        if p is not None:
+            out.append(p)
+    for st in f.stmts:
+        if not st:
+            continue
+        k = st['k']
+        if k in ('MemberExpr', 'DeclRefExpr'):
+            P = canon_path(f, f.path(st['i']))
+            if P and _is_prefix(P, X) and classify_access(f, st['i']) == 'w':
+                # a non-const method call on X itself is judged below (element access does not resize)
+                par = f.s(f.parent.get(st['i'])) if hasattr(f, 'parent') else None
+                up = st['i']
+                while True:
+                    pp = f.parent.get(up)
+                    ps = f.s(pp) if pp is not None else None
+                    if ps is None or ps['k'] not in ('ImplicitCastExpr', 'ParenExpr'):
+                        break
+                    up = pp
+                if ps is not None and ps['k'] in ('CXXMemberCallExpr', 'CXXOperatorCallExpr') and ps.get('obj') is not None and f.strip_casts(ps['obj']) == st['i']:
+                    continue
+                add(st)
+        if k in CALL_KINDS:
+            if 'obj' in st and st.get('obj') is not None:
+                P = canon_path(f, f.path(st['obj']))
+                const = st.get('mconst') or (k == 'CXXOperatorCallExpr' and st.get('op') in ('==', '!=', '<', '>', '<=', '>=', '()') and not st.get('cls', '').startswith('std::function'))
+                if P == 'this':
+                    if this_rooted and not const:
+                        add(st)
+                elif P and _is_prefix(P, X) and not const:
+                    if P == X and not content and (st.get('fn') in NON_RESIZING or st.get('op') == '[]'):
+                        pass
+                    else:
+                        add(st)
+            if this_rooted and (k == 'CXXOperatorCallExpr' and st.get('op') == '()' and st.get('cls', '').startswith('std::function<') or (k == 'CallExpr' and not st.get('callee'))):
+                add(st)
+            for a in st.get('args', ()):
+                if a == st.get('obj'):
+                    continue
+                P = canon_path(f, f.path(a))
+                if not P or P == '?':
+                    continue
+                ty = (f.s(a).get('t') or '')
+                if (_is_prefix(P, X) or (P == 'this' and this_rooted)) and not (ty.startswith('const ') or ' const' in ty):
+                    inner = f.s(f.strip_casts(a))
+                    # passing the *value* of a scalar is harmless; objects/pointers/references are not
+                    if inner is not None and inner.get('k') in ('IntegerLiteral',):
+                        continue
+                    add(st)
+    cache[key] = out
+    return out
+
+
+def stable(f, X, p_from, p_to, content=False, ignore=()):
+    """no statement that may change X lies on a path p_from -> p_to (p_from None = function entry)"""
+    if p_to is None:
+        return False
+    src = p_from if p_from is not None else f.cfg.entry_point()
+    for m in mod_points(f, X, content):
+        if m in ignore or m == p_from:
+            continue
+        if m == p_to:
+            continue
+        if f.cfg.exists_path(src, m, src_inclusive=False) and f.cfg.exists_path(m, p_to, src_inclusive=False):
+            return False
+    return True
